@@ -87,7 +87,7 @@ def run(specdir, module, cfg_text, extra_modules=None, workers="auto", timeout=6
         cmd = ["java", "-XX:+UseParallelGC"]
         if heap:
             cmd.append("-Xmx" + heap)
-        cmd += ["-Xss64m"]
+        cmd += ["-Xss64m", "-Djava.io.tmpdir=" + scratch]   # (TLC leaves an empty tlc-<n> directory per run in the tmpdir)
         if dfs:
             cmd.append("-Dtlc2.tool.queue.IStateQueue=StateDeque")
         cmd += ["-cp", JAR, "tlc2.TLC", "-metadir", os.path.join(scratch, "meta"),
